@@ -99,6 +99,10 @@ func (s *Search) And(field, operator string, value interface{}) *Search {
 		return s
 	}
 
+	// index is read by the search
+	s.db.RLock()
+	defer s.db.RUnlock()
+
 	return s.db.search(s.object, field, operator, value, s.fields)
 }
 
@@ -109,7 +113,11 @@ func (s *Search) Or(field, operator string, value interface{}) *Search {
 		return s
 	}
 
+	// index is read by the search
+	s.db.RLock()
 	new := s.db.search(s.object, field, operator, value, nil)
+	s.db.RUnlock()
+
 	marked := make(map[uint64]bool)
 	// we mark the fields of the new search
 	for _, f := range new.fields {
@@ -132,6 +140,16 @@ func (s *Search) Len() int {
 // Iterator returns an Iterator convenient to iterate over
 // the objects resulting from the search
 func (s *Search) Iterator() (it *iterator, err error) {
+	// index is read to build the iterator
+	s.db.RLock()
+	defer s.db.RUnlock()
+
+	return s.iterator()
+}
+
+// iterator returns an Iterator over the objects resulting from
+// the search, db lock must be held by caller
+func (s *Search) iterator() (it *iterator, err error) {
 	var sch *Schema
 
 	if s.err != nil {
@@ -278,7 +296,8 @@ func (s *Search) collect() (out []Object, err error) {
 		return nil, s.err
 	}
 
-	if it, err = s.Iterator(); err != nil {
+	// db lock is already held by callers
+	if it, err = s.iterator(); err != nil {
 		return
 	}
 
